@@ -42,6 +42,8 @@ func init() {
 			c.ruleCallee()
 			c.ruleRecoveryID()
 			c.min("R-RECID", 4)
+			c.ruleRecIDOnce()
+			c.min("R-RECIDONCE", 1)
 			c.min("R-CALLEE", 12)
 		})
 }
